@@ -189,6 +189,26 @@ def shared_core_pair(ctx: Ctx, n: int, docs: list[dict] | None = None, layout: i
             rec.violation(sig, [], case, json.dumps(f)[:700])
 
 
+def recursive_union_doc(rng) -> specgen.Doc:
+    """A named union one of whose members contains the union itself (the 'JSON value' / expression-tree shape)."""
+    R = lambda n: {"$ref": f"#/components/schemas/{n}"}  # noqa
+    kw = rng.choice(["oneOf", "anyOf"])
+    name = rng.choice(["Expr", "JsonVal", "tree_node"])
+    members = [{"type": "string"}, {"type": "number"}, {"type": "array", "items": R(name)},
+               {"type": "object", "additionalProperties": R(name)}, R("Leaf")]
+    rng.shuffle(members)
+    members = members[:rng.randint(3, 5)]
+    if not any(name in json.dumps(m) for m in members):
+        members.append({"type": "array", "items": R(name)})
+    schemas = {name: {kw: members}, "Leaf": {"type": "object", "properties": {"label": {"type": "string"}}},   # (no reference back: a cycle BETWEEN models is the recorded mutual_ref class)
+               "Holder": {"type": "object", "properties": {"value": R(name), "values": {"type": "array", "items": R(name)}}}}
+    doc = {"openapi": "3.0.3", "info": {"title": "Recursive union", "version": "1"}, "paths": {
+        "/op1/eval": {"post": {"operationId": "evaluate", "requestBody": {"required": True, "content": {"application/json": {"schema": R(name)}}},
+                              "responses": {"200": {"description": "ok", "content": {"application/json": {"schema": R("Holder")}}}}}}},
+        "components": {"schemas": schemas}}
+    return specgen.Doc(doc, {"a": 1, "b": 2}, [{}], {"recursive_union"})
+
+
 def make_items(ctx: Ctx, count: int, start: int):
     rng = ctx.rng
     items = []
@@ -252,7 +272,7 @@ def run_shard(ctx: Ctx) -> None:
         shared_core_pair(ctx, ctx.shard * 1000 + k)
     # schema-centred inputs: the compositional grammar and the exhaustive shape catalogue, as models, as response bodies
     # and as request bodies (everything emitted for them must compile and import as well)
-    extra = []
+    extra = [recursive_union_doc(ctx.rng) for _ in range(2 if ctx.quick else 30)]
     for k in range(2 if ctx.quick else 40):
         allow = {"free_form_empty_schema", "object_with_extras"} if k % 2 else set()
         extra.append(richgen.generate(ctx.rng, allow=allow))
